@@ -368,6 +368,9 @@ def harnesses(t):
                 hs.append({'kind': 'snapshot', 'tree': 'snapA', 'N': N, 'be': be, 'fault': ('source-read', 1)})
                 hs.append({'kind': 'snapshot', 'tree': 'snapA', 'N': N, 'be': be, 'fault': ('source-read', 2)})
             hs.append({'kind': 'restore', 'tree': 'restB', 'N': N, 'be': be, 'fault': ('download_stream', 2)})
+            if N == 1:
+                # every upload worker has failed while the producer still has more chunks than the queue holds
+                hs.append({'kind': 'snapshot', 'tree': 'snapC', 'N': 1, 'be': be, 'fault': ('upload_stream', 1), 'horizon': 12000})
             if be == 'plain':
                 # the disk fills up while a part of a file is written
                 hs.append({'kind': 'restore', 'tree': 'restB', 'N': N, 'be': be, 'fault': ('target-write', 1)})
@@ -390,6 +393,8 @@ def main():
         wfp = getattr(R.Repository, '_write_file_part', None)
         if wfp is not None:
             line_codes.append(wfp.__code__)
+    # loop-bound asyncio primitives: their lines are points only for threads that have no business calling them
+    loop_codes = dsched.loop_bound_code()
     plan = []
     for h in harnesses(t):
         bound = 1
@@ -420,18 +425,27 @@ def main():
         plan.append(({'kind': 'restore', 'tree': 'restD', 'N': 2, 'be': 'async', 'lines': True}, 1, True))
         plan.append(({'kind': 'restore', 'tree': 'restS', 'N': 2, 'be': 'plain', 'lines': True}, 1, True))
         plan.append(({'kind': 'snapshot', 'tree': 'snapA', 'N': 2, 'be': 'plain', 'lines': True}, 1, True))
+        # one slot, two loader threads: whatever the threads do to get at the slot is raced at line level
+        for h_ in ({'kind': 'restore', 'tree': 'restA', 'N': 1, 'be': 'plain', 'lines': 'loop-bound-only'},
+                   {'kind': 'restore', 'tree': 'restB', 'N': 1, 'be': 'plain', 'lines': 'loop-bound-only'},
+                   {'kind': 'snapshot', 'tree': 'snapA', 'N': 1, 'be': 'plain', 'lines': 'loop-bound-only'}):
+            plan.append((h_, 2, 'loop'))
 
     tot = explore.Agg()
     per = []
     det_all = True
     for h, bound, lines in plan:
-        if lines:
-            dsched.enable_line_points(line_codes)
+        if lines == 'loop':
+            # only inside loop-bound asyncio primitives, and only for threads other than the loop's: on code that keeps
+            # its worker threads away from them this adds no point at all
+            dsched.enable_line_points([], foreign_only=loop_codes)
+        elif lines:
+            dsched.enable_line_points(line_codes, foreign_only=loop_codes)
         try:
             agg, info = explore.explore(run_c09, h, bound)
         finally:
             if lines:
-                dsched.disable_line_points(line_codes)
+                dsched.disable_line_points(line_codes + loop_codes)
         det_all &= info['deterministic_replay']
         if not info['deterministic_replay']:
             chk.harness_error(f'replay of {h} not deterministic')
